@@ -39,6 +39,11 @@ def run_one(sid, tier, in_repo):
         shutil.rmtree(wt, ignore_errors=True)
         r = sh(["git", "-C", "/repo", "worktree", "add", "--detach", wt])
         r = sh(["git", "-C", wt, "apply", patch])
+        if r.returncode != 0 and meta.get("base_commit"):
+            # /repo moved on since the change was written: test it on the commit it was made for
+            sh(["git", "-C", wt, "checkout", "-q", "--detach", meta["base_commit"]])
+            r = sh(["git", "-C", wt, "apply", patch])
+            out["tested_on"] = meta["base_commit"]
         if r.returncode != 0:
             out["error"] = "patch does not apply: " + r.stdout[-300:]
             sh(["git", "-C", "/repo", "worktree", "remove", "--force", wt])
